@@ -19,10 +19,12 @@ fn round_to(x: f64, digits: i32) -> f64 {
 }
 
 /// domain edges of the real-valued functions: swept exhaustively for every name, and mixed into the random draws
-const EDGES: [f64; 59] = [
+const EDGES: [f64; 69] = [
     0.0, 1.0, -1.0, 0.5, -0.5, 2.0, 10.0, 0.9999999999999999, 1.0000000000000002, -0.9999999999999999, 1e-9, -1e-9, 1e15, -1e15, 20.0, 21.0, 22.0, 23.0, 170.0, 171.0, 150.5, -149.5, -1.5, -2.5, 0.001, -0.999,
     -0.3678794411714423, -0.36, -0.3, -0.2, 3.0, 100.0, 1e6, 1e-6, 709.0, 710.0, -745.0, 1e300, 1.5707963267948966, 3.141592653589793, 6.283185307179586, 0.25, 4.0, 8.0, 27.0, 1024.0, 1e-300,
     169.0, 172.0, 18.0, 19.0, 62.0, 63.0, 64.0, 1023.0, 1024.5, -0.25, 2.5, -3.0,
+    // neighbours of the rounding ties
+    0.49999999999999994, -0.49999999999999994, 0.5000000000000001, 1.4999999999999998, 2.5000000000000004, 4503599627370495.5, 4503599627370497.0, 9007199254740991.0, 3.5, -3.5,
 ];
 const DEC_EDGES: [f64; 27] = [0.0, 1.0, -1.0, 0.5, 2.0, 10.0, 2.5, 3.5, -2.5, -3.5, 0.25, 27.0, 28.0, 26.0, 4.5, -0.5, -1.5, 20.5, -0.3, -0.36, 100.0, 0.001, 1.5, 2.4, 2.6, -2.4, -2.6];
 
@@ -265,7 +267,7 @@ impl Monitor for C10 {
         to_verdict("C10", case.ev, &format!("{}|{}", case.extra, region), rv, false)
     }
     fn rule(&self) -> &'static str {
-        "for every evaluator, every README spelling of every one- and two-argument function (aliases included), the constants pi/π/e and the postfix operators ! ° rad: first every domain edge argument in turn (59 real edges as literals and through @, the i64 boundary pool and -3..25, decimal edges and 0..30), then arguments drawn per call from a mixture of domain edges (+-1 neighbours by one ulp, 0, -1/e, 20..23, 170/171, 709/710), uniform [-1,1], [-10,10], [1,51], small integers, log-uniform 1e-8..1e8 and 1e-300..1e300, injected as exact literal expressions and through @ (Integer and Float operands in eval_number, generic `(a+bi)` and real operands in eval_complex); oracle = host libm / tgamma / exact integer and rational arithmetic / the identity w*e^w = x, with the tolerances of the statement (exact for abs sgn floor ceil trunc round n!, 1e-9 otherwise, +-1 for eval_i64's real-valued functions); non-trivial = the argument lies where the reference defines the function; distinct = distinct (evaluator, expression, placeholder)"
+        "for every evaluator, every README spelling of every one- and two-argument function (aliases included), the constants pi/π/e and the postfix operators ! ° rad: first every domain edge argument in turn (69 real edges as literals and through @, the i64 boundary pool and -3..25, decimal edges and 0..30), then arguments drawn per call from a mixture of domain edges (+-1 neighbours by one ulp, 0, -1/e, 20..23, 170/171, 709/710), uniform [-1,1], [-10,10], [1,51], small integers, log-uniform 1e-8..1e8 and 1e-300..1e300, injected as exact literal expressions and through @ (Integer and Float operands in eval_number, generic `(a+bi)` and real operands in eval_complex); oracle = host libm / tgamma / exact integer and rational arithmetic / the identity w*e^w = x, with the tolerances of the statement (exact for abs sgn floor ceil trunc round n!, 1e-9 otherwise, +-1 for eval_i64's real-valued functions); non-trivial = the argument lies where the reference defines the function; distinct = distinct (evaluator, expression, placeholder)"
     }
     fn assumptions(&self) -> Vec<&'static str> {
         vec![
